@@ -36,6 +36,8 @@ type gatedReader struct {
 	closed int
 	member int
 	desc   ociregistry.Descriptor
+	// closeFails: Close reports an error (the reader is closed all the same)
+	closeFails bool
 }
 
 func (g *gatedReader) Read(p []byte) (int, error) {
@@ -46,10 +48,17 @@ func (g *gatedReader) Read(p []byte) (int, error) {
 	g.pos += n
 	return n, nil
 }
-func (g *gatedReader) Close() error                      { g.closed++; return nil }
+func (g *gatedReader) Close() error {
+	g.closed++
+	if g.closeFails {
+		return errors.New("close failed")
+	}
+	return nil
+}
 func (g *gatedReader) Descriptor() ociregistry.Descriptor { return g.desc }
 
 type memberPlan struct {
+	closeFails   bool
 	ok           bool
 	delay        int  // yields before answering
 	waitsCancel  bool // returns ctx.Err() as soon as its context is cancelled
@@ -69,7 +78,7 @@ func c16(env *core.Env) {
 	entry := []string{"GetBlob", "GetBlobRange", "GetManifest", "ResolveBlob", "ResolveManifest"}[c.Int("entry", 5)]
 	plans := [2]memberPlan{}
 	for i := range plans {
-		plans[i] = memberPlan{ok: c.Bool("ok", 1, 2), delay: c.Range("delay", 0, 3), waitsCancel: c.Bool("waitscancel", 1, 4)}
+		plans[i] = memberPlan{ok: c.Bool("ok", 1, 2), delay: c.Range("delay", 0, 3), waitsCancel: c.Bool("waitscancel", 1, 4), closeFails: c.Bool("closefails", 1, 4)}
 	}
 	cancelAt := -1 // number of canceller yields before the caller's context is cancelled
 	if c.Bool("cancel", 1, 3) {
@@ -109,7 +118,7 @@ func c16(env *core.Env) {
 				finish(i, err)
 				return nil, err
 			}
-			r := &gatedReader{data: []byte(fmt.Sprintf("content-from-%d", i)), member: i, desc: ociregistry.Descriptor{Digest: dig, Size: 14, MediaType: "application/octet-stream"}}
+			r := &gatedReader{closeFails: plans[i].closeFails, data: []byte(fmt.Sprintf("content-from-%d", i)), member: i, desc: ociregistry.Descriptor{Digest: dig, Size: 14, MediaType: "application/octet-stream"}}
 			logs[i].reader = r
 			finish(i, nil)
 			return r, nil
@@ -248,6 +257,16 @@ func c16(env *core.Env) {
 		}
 		io.ReadAll(br)
 		br.Close()
+		// ... and is cancelled afterwards (whether or not the member's Close reported an error)
+		if logs[winner].ctx.Err() == nil {
+			env.Failf(class("context-not-cancelled"), "the returned reader was closed (member Close fails: %v) but the context given to the chosen member is still live. %s", plans[winner].closeFails, describe())
+		}
+	}
+	if err == nil && !isReader && logs[winner].ctx.Err() == nil {
+		// resolve-style reads have nothing to keep open: the chosen member's context is
+		// cancelled before the call returns (the other member's is cancelled by its own
+		// goroutine once it runs, which the end-of-run check covers)
+		env.Failf(class("context-not-cancelled"), "a resolve-style read returned but the context given to the chosen member %d is still live. %s", winner, describe())
 	}
 	w := winner
 	env.Finally(func() {
